@@ -136,6 +136,7 @@ func main() {
 		unroll := fs.Int("unroll", 3, "default loop bound")
 		asJSON := fs.Bool("json", false, "json output")
 		prof := fs.String("cpuprofile", "", "write cpu profile")
+		qcap := fs.Int("qcap", 2, "quick-tier cap for unroll loops (0 = none)")
 		fs.Parse(os.Args[2:])
 		args := fs.Args()
 		p, err := gvc.Load(*repo, true)
@@ -146,6 +147,7 @@ func main() {
 		cfg := gvc.DefaultConfig()
 		cfg.Verbose = *verbose
 		cfg.MaxUnroll = *unroll
+		cfg.QuickLoopCap = *qcap
 		if *prof != "" {
 			f, _ := os.Create(*prof)
 			pprof.StartCPUProfile(f)
